@@ -22,17 +22,23 @@ import (
 //	       For>0: the member also carries v-for="x in l<For>" (a list of For integers 1..For)
 //	       and prints tM-{{ x }}.
 //
+//	include: <template include="comp.vuego" mk=M p0="s0" .. p<Props-1>="s.."></template>; the
+//	       component prints <p data-m=M>tM</p> (through a v-if on its prop p0)
+//	probe: <p data-m=M v-show=Cond :data-x=Cond :class="{k: Cond}">tM</p> - the other consumers
+//	       of truthiness; its expected text is tM+attr+k (truthy) or tM+hidden (falsy)
+//
 // An elif / else node that does not continue a chain is an orphan.
 type Node struct {
-	Kind string `json:"kind"`
-	M    string `json:"m"`
-	Cond string `json:"cond,omitempty"` // [!]name or [!]loopvar.name
-	Tmpl bool   `json:"tmpl,omitempty"`
-	For  int    `json:"for,omitempty"`
-	Sep  string `json:"sep,omitempty"` // what precedes the node: "" | "w" | "c" | "wcw"
-	List string `json:"list,omitempty"`
-	Var  string `json:"var,omitempty"`
-	Kids []Node `json:"kids,omitempty"`
+	Kind  string `json:"kind"`
+	M     string `json:"m"`
+	Cond  string `json:"cond,omitempty"` // [!]name or [!]loopvar.name
+	Tmpl  bool   `json:"tmpl,omitempty"`
+	For   int    `json:"for,omitempty"`
+	Sep   string `json:"sep,omitempty"` // what precedes the node: "" | "w" | "c" | "wcw"
+	List  string `json:"list,omitempty"`
+	Var   string `json:"var,omitempty"`
+	Props int    `json:"props,omitempty"` // include: number of props p0.. passed to the component
+	Kids  []Node `json:"kids,omitempty"`
 }
 
 // Case is a template (forest of nodes) plus its data.
@@ -96,7 +102,28 @@ func observed(l []*hx.N, ignore map[string]bool) []Out {
 				own = append(own, k.Text)
 			}
 		}
-		out = append(out, Out{ID: id, Text: strings.Join(own, " "), Kids: observed(n.Kids, ignore)})
+		out = append(out, Out{ID: id, Text: strings.Join(own, " ") + flags(n), Kids: observed(n.Kids, ignore)})
+	}
+	return out
+}
+
+// flags reports what the truthiness consumers left on an element: +hidden (style declares
+// display:none), +attr (data-x present), +k (class token k present).
+func flags(n *hx.N) string {
+	out := ""
+	for _, decl := range strings.Split(n.Attrs["style"], ";") {
+		kv := strings.SplitN(decl, ":", 2)
+		if len(kv) == 2 && strings.EqualFold(strings.TrimSpace(kv[0]), "display") && strings.EqualFold(strings.TrimSpace(kv[1]), "none") {
+			out += "+hidden"
+		}
+	}
+	if _, ok := n.Attrs["data-x"]; ok {
+		out += "+attr"
+	}
+	for _, c := range strings.Fields(n.Attrs["class"]) {
+		if c == "k" {
+			out += "+k"
+		}
 	}
 	return out
 }
@@ -125,6 +152,11 @@ type stats struct {
 	sibBefore   bool
 	sibAfter    bool
 	loopEmpty   bool
+	includes    int // include nodes evaluated
+	maxProps    int
+	probes      int
+	propCond    bool // a condition names a component prop (p<k>) that is undefined where it is evaluated
+	propInLoop  bool // ... and is evaluated inside a loop body
 	chainsTotal int
 }
 
@@ -156,6 +188,12 @@ func (m *model) truthy(cond string, sc scope) bool {
 	}
 	if !found {
 		v = vals.Missing()
+		if isPropName(cond) {
+			m.st.propCond = true
+			if len(sc) > 0 {
+				m.st.propInLoop = true
+			}
+		}
 	}
 	if v.K != "bool" {
 		m.st.nonBool = true
@@ -165,6 +203,10 @@ func (m *model) truthy(cond string, sc scope) bool {
 		return !t
 	}
 	return t
+}
+
+func isPropName(s string) bool {
+	return len(s) >= 2 && s[0] == 'p' && s[1] >= '0' && s[1] <= '9'
 }
 
 func isMember(k string) bool { return k == "elif" || k == "else" }
@@ -181,6 +223,21 @@ func (m *model) eval(nodes []Node, sc scope, depth int, inLoop, inChain bool) []
 		switch n.Kind {
 		case "plain":
 			out = append(out, Out{ID: n.M, Text: "t" + n.M, Kids: m.eval(n.Kids, sc, depth+1, inLoop, inChain)})
+			prevChainEnd = false
+		case "include":
+			m.st.includes++
+			if n.Props > m.st.maxProps {
+				m.st.maxProps = n.Props
+			}
+			out = append(out, Out{ID: n.M, Text: "t" + n.M})
+			prevChainEnd = false
+		case "probe":
+			m.st.probes++
+			text := "t" + n.M + "+hidden"
+			if m.truthy(n.Cond, sc) {
+				text = "t" + n.M + "+attr+k"
+			}
+			out = append(out, Out{ID: n.M, Text: text})
 			prevChainEnd = false
 		case "loop":
 			items := m.c.Lists[n.List]
@@ -329,6 +386,14 @@ func writeNodes(sb *strings.Builder, nodes []Node) {
 		n := &nodes[i]
 		sb.WriteString(sepText(n.Sep))
 		switch {
+		case n.Kind == "include":
+			fmt.Fprintf(sb, `<template include="comp.vuego" mk="%s"`, n.M)
+			for k := 0; k < n.Props; k++ {
+				fmt.Fprintf(sb, ` p%d="s%d"`, k, k)
+			}
+			sb.WriteString(`></template>`)
+		case n.Kind == "probe":
+			fmt.Fprintf(sb, `<p data-m="%s" v-show="%s" :data-x="%s" :class="{k: %s}">t%s</p>`, n.M, n.Cond, n.Cond, n.Cond, n.M)
 		case n.Kind == "loop":
 			fmt.Fprintf(sb, `<div data-m="%s" v-for="%s in %s">t%s-{{ %s.id }}`, n.M, n.Var, n.List, n.M, n.Var)
 			writeNodes(sb, n.Kids)
@@ -351,6 +416,19 @@ func writeNodes(sb *strings.Builder, nodes []Node) {
 			sb.WriteString(`</` + tag + `>`)
 		}
 	}
+}
+
+// componentSource is the included component: it prints its marker through a chain on its own
+// first prop (truthy there), so a correct engine renders <p data-m=mk>tmk</p>.
+const componentSource = `<p data-m="{{ mk }}" v-if="p0">t{{ mk }}</p><p data-m="{{ mk }}" v-else>no-p0</p>`
+
+func hasInclude(nodes []Node) bool {
+	for i := range nodes {
+		if nodes[i].Kind == "include" || hasInclude(nodes[i].Kids) {
+			return true
+		}
+	}
+	return false
 }
 
 func (c *Case) source() string {
